@@ -375,6 +375,18 @@ func rewrite(resp kmsg.Response, code int16, throttleMs int32) bool {
 			r.ThrottleMillis = throttleMs
 			changed = true
 		}
+		if code != 0 {
+			// partitions in the middle of a leader election
+			for i := range r.Topics {
+				for j := range r.Topics[i].Partitions {
+					r.Topics[i].Partitions[j].ErrorCode = code
+					if code == 5 {
+						r.Topics[i].Partitions[j].Leader = -1
+					}
+					changed = true
+				}
+			}
+		}
 	}
 	return changed
 }
